@@ -101,6 +101,8 @@ ApplyModel(o) ==
 Observe(a, o) ==
     /\ Len(hist) < MaxDepth
     /\ CASE a = "logd" -> TRUE
+         [] a = "rename_original" -> objs[o].kind = "composite" /\ objs[o].origin = 0   \* the user renames an ORIGINAL: its
+                                                      \* conditioned copies keep "the name of their original", i.e. follow
          [] a = "bad_call" -> objs[o].kind # "model"      \* a malformed call (unknown keyword) that is refused: nothing changes
          [] a = "gradient" -> objs[o].kind # "model"
          [] a = "sample" -> objs[o].kind \in {"factor", "composite"}
@@ -116,7 +118,7 @@ DoCopyEnableFD == \E o \in Ids : CopyEnableFD(o)
 DoApplyModel   == \E o \in Ids : ApplyModel(o)
 DoCondFactor   == \E o \in Ids : CondFactor(o)
 DoMutateCopy   == \E o \in Ids : MutateCopy(o)
-DoObserve      == \E o \in Ids, a \in {"logd", "gradient", "sample", "run_sampler", "gibbs", "bad_call"} : Observe(a, o)
+DoObserve      == \E o \in Ids, a \in {"logd", "gradient", "sample", "run_sampler", "gibbs", "bad_call", "rename_original"} : Observe(a, o)
 Next == DoCondition \/ DoToLikelihood \/ DoCopyEnableFD \/ DoApplyModel \/ DoCondFactor \/ DoMutateCopy \/ DoObserve
 Spec == Init /\ [][Next]_vars
 
